@@ -10,10 +10,12 @@ CLAIMED = {
     "C19": (
         "Kernel-checked theorems over a Lean transcription of PackURI + posixpath: relative_ref/from_rel_ref round trip for "
         "all clean paths of any depth, RFC 3986 dot-segment resolution, root-absolute references, rels-item/baseURI/filename "
-        "specs, rejection iff no leading slash.  The model is tied to the code by exact correspondence over the property's "
+        "specs, rejection iff no leading slash; extension and numeric index of every name A/stem.e (ext_spec, ext_none_spec; "
+        "idx_spec: letters followed by the decimal digits of n give index n for EVERY n, via Nat.repr / toDigits round trip; "
+        "idx_none_spec).  The model is tied to the code by exact correspondence over the property's "
         "bounded-exhaustive name space (every accessor on every name to depth 3/4, all pairs to depth 2/3 plus seeded deeper pairs).",
         "Trusted: Lean kernel; posixpath re-implemented (not translated) in the model and compared exhaustively on the bounded "
-        "alphabet; ext/idx specs are correspondence + Python oracle only (no theorem yet).",
+        "alphabet.",
         "Lean 4 proof (induction over path components) + exhaustive model/implementation correspondence",
         "DESIGN.md §5 C19",
     ),
@@ -55,8 +57,8 @@ CLAIMED["C04"] = (
     "assignment; by induction on the string through the split/escape/join pipeline.  Tied to the code by exact "
     "correspondence of read-back and a:p/a:r/a:br skeleton on seeded strings x four levels x seeded prior states, and "
     "by 1..3 save/re-open cycles per deck.",
-    "Trusted: lxml text-node storage; survival across re-open (libxml2 blank-text handling) is runtime and only sampled; "
-    "the a:br count theorem is not proved (checked by oracle + correspondence).",
+    "Trusted: lxml text-node storage; survival across re-open (libxml2 blank-text handling) is runtime and only sampled "
+    "(the a:br count - one per break character / vertical tab - is proved: para_break_count, frame_break_count).",
     "Lean 4 proof (induction on strings) + seeded correspondence incl. save/re-open",
     "DESIGN.md §5 C04",
 )
@@ -203,7 +205,7 @@ CLAIMED["C18"] = (
     "and offsets -14:00..+14:00 (also against datetime arithmetic), the 255 rule, revision domain, assignment orders, 1..2 "
     "save/re-open cycles, default part on first access, and a transcribed-schema validity check of docProps/core.xml.",
     "Trusted: that datetime arithmetic is the civil-date conversion modelled (corresponded); schema transcription (the "
-    "shipped XSD imports Dublin Core by URL); naive datetimes only.",
+    "shipped XSD imports Dublin Core by URL); datetimes carrying an offset are stored as the same instant (writeAware_instant).",
     "Lean 4 proof (character-level write/read round trip; exactness of the civil-date conversion; offsets as UTC) + seeded correspondence",
     "DESIGN.md §5 C18",
 )
